@@ -45,6 +45,14 @@ impl SwiftField for Field90D {
     where
         Self: Sized,
     {
+        // The formats below are cut out by byte offsets: only ASCII can be sliced safely, and
+        // no SWIFT character set contains anything else
+        if !input.is_ascii() {
+            return Err(ParseError::InvalidFormat {
+                message: "Field 90D must contain only ASCII characters".to_string(),
+            });
+        }
+
         let mut remaining = input;
 
         // Parse number of transactions (5n)
@@ -148,6 +156,14 @@ impl SwiftField for Field90C {
     where
         Self: Sized,
     {
+        // The formats below are cut out by byte offsets: only ASCII can be sliced safely, and
+        // no SWIFT character set contains anything else
+        if !input.is_ascii() {
+            return Err(ParseError::InvalidFormat {
+                message: "Field 90C must contain only ASCII characters".to_string(),
+            });
+        }
+
         let mut remaining = input;
 
         // Parse number of transactions (5n)
